@@ -570,7 +570,7 @@ def gen_spellings(rng, S, R, thorough):
     # 2b. paths of three and more parts through members typed by reference, in every root form
     for t in S.visible:
         pinned = getattr(t, "pinned", False)
-        for w in deep_paths(S, t, limit=8 if (pinned or thorough) else 2):
+        for w in deep_paths(S, t, limit=(8 if thorough else 5) if pinned else (6 if thorough else 2)):
             for sp in root_forms(rng, S, R, t.ns, t.name, all_forms=pinned or thorough):
                 sp = sp.with_members(w)
                 out.append((sp.text(), sp, "deep-path-%d%s" % (len(w) + 1, "-attr" if w[-1][1] else "")))
@@ -788,7 +788,7 @@ def run(ck):
 
     thorough = ck.tier != "quick"
     n_schemas = 36 if not thorough else 400
-    batch = 40
+    batch = 12
     rng = ck.rng
     unproved = []
 
@@ -903,6 +903,7 @@ def run(ck):
                     ck.count("object-vs-dict-setup-failed")
                     ck.extra.setdefault("object_vs_dict_failures", []).append(repr(e)[:200])
 
+    ck.extra["phase_seconds"] = {"proof+generation+implementation": round(__import__("time").time() - ck.t0, 1)}
     # ------------------------------------------------------------------ judge
     def batches(cases):
         by = {}
@@ -922,12 +923,14 @@ def run(ck):
     n_strict = {}
     for bi, chunk in enumerate(batches(create_cases)):
         preds = ["create_agrees", "create_spec_ok", "create_strict_ok", "create_claimed",
-                 "fun c => negb (theorem_guard c)", "theorem_instance"]
+                 "fun c => negb (theorem_guard c)"]
+        if bi == 0 or thorough:
+            preds.append("theorem_instance")      # re-runs the model: first batch only in the quick tier
         res = ck.run_cases("create%d" % bi, pre_for(chunk), "ccase", [c[1] for c in chunk], preds, shard=250)
         spec_bad = set(res["create_spec_ok"])
         n_claimed += len(chunk) - len(res["create_claimed"])
         n_guard += len(res["fun c => negb (theorem_guard c)"])
-        n_inst_bad += len(res["theorem_instance"])
+        n_inst_bad += len(res.get("theorem_instance", []))
         for i in sorted(spec_bad):
             m = chunk[i][2]
             impl = m["impl"]
